@@ -71,6 +71,8 @@ def apply_op(pat, grid, op, lines, tracks):
             raised = False
         except Boom:
             raised = True
+        except Exception as e:                      # an error that is NOT the callable's: the edit itself broke
+            raised = "other:" + type(e).__name__
     else:
         S = [tuple(c) for c in op["cells"]]
 
@@ -91,6 +93,8 @@ def apply_op(pat, grid, op, lines, tracks):
             raised = False
         except Boom:
             raised = True
+        except Exception as e:
+            raised = "other:" + type(e).__name__
     return raised, expect_fail, (grid if expect_fail else new)
 
 
@@ -113,6 +117,26 @@ def run_history(lines, tracks, attached, hist, initial="dense"):
     if attached:
         proj = rv.Project()
         proj.new_module(rv.m.Amplifier)
+        if attached == "rich":
+            # the pattern lives in a FULL project: one module of every type (arrays, waveforms, an embedded project, a
+            # sampler with a sample and an effect), links, another pattern and a clone of it -- a bulk edit that copies
+            # or walks more than the pattern itself meets all of it
+            from rvmc import deviate
+
+            for tk in deviate.type_keys():
+                if tk != "Output":
+                    proj.attach_module(deviate.new_module(tk))
+            smp = next(m for m in proj.modules if m.mtype == "Sampler")
+            s0 = smp.Sample()
+            s0.data = bytes(range(64))
+            smp.samples[0] = s0
+            smp.effect = rv.Synth(rv.m.Reverb())
+            mm = next(m for m in proj.modules if m.mtype == "MetaModule")
+            mm.project.new_module(rv.m.Generator)
+            for m in proj.modules[1:6]:
+                proj.connect(m, proj.output)
+            proj.attach_pattern(rv.Pattern(lines=2, tracks=2))
+            proj.attach_pattern(rv.PatternClone(source=0))
         proj.attach_pattern(pat)
     # start from a non-empty pattern so "keeps previous content" is observable
     if initial == "untouched":
@@ -207,10 +231,10 @@ def run(ctx):
             else:
                 d = depth
             n = len(op_list(lines, tracks))
-            for attached in (False, True):
+            for attached in (False, True) + (("rich",) if (lines, tracks) == (2, 2) else ()):
                 step = 4 if d == 3 else 16
                 for lo in range(0, n, step):
-                    tasks.append((lines, tracks, attached, d, lo, min(n, lo + step)))
+                    tasks.append((lines, tracks, attached, 1 if attached == "rich" else d, lo, min(n, lo + step)))
     from rvmc.runner import rotate
 
     agg = C.Agg()
